@@ -75,6 +75,11 @@ def REF(cls):
     return ("ref", cls)
 
 
+def ANYLIST(n, elem):
+    """A list of concrete length n whose entries are arbitrary values of declaration `elem` (same index -> same entry)."""
+    return ("anylist", n, elem)
+
+
 def CALLABLE(name, returns=None, raises=("Exception",)):
     """An opaque callable: calling it records event `name`, may raise any of `raises`, returns a fresh value."""
     return ("callable", name, returns, tuple(raises))
